@@ -7,7 +7,7 @@ R-WAIT-OUTCOME  in handle_hold_tap, Hold is produced only by a per-variant early
 R-GATE   the input queue is not dequeued while a decision is pending or input processing is paused.
 """
 from kq.analysis import backward_slice, blocks_calling, discr_switches
-from kq.core import callee_name, is_place, proj_fields
+from kq.core import callee_name, callee_written, is_place, proj_fields
 from kq.report import RuleResult
 from rules.r_doaction import receiver_fields
 
@@ -177,4 +177,51 @@ def rule_gate(prog):
 
 
 def run_all(prog):
-    return [rule_wait(prog), rule_outcome(prog), rule_gate(prog)]
+    return [rule_wait(prog), rule_outcome(prog), rule_gate(prog), rule_permissive(prog)]
+
+
+def rule_permissive(prog):
+    """R-PERMISSIVE (C05): tap-hold-release looks for the other key's release only after that key's press."""
+    from kq.core import rvalue_operands
+    res = RuleResult("R-PERMISSIVE", "tap-hold-release searches the release after the press it belongs to", floor=1)
+    f = prog.fn(WS + "::handle_hold_tap")
+    res.fn(f)
+    sws = discr_switches(prog, f, "kanata_keyberon::action::HoldTapConfig")
+    if not sws:
+        res.viol("shape", f.loc, "handle_hold_tap no longer matches on HoldTapConfig")
+        return res
+    region = sws[0].arm_region("PermissiveHold")
+    nexts = [(b, t) for b in region for t in [f.term(b)] if t["k"] == "call" and (callee_name(t) or "").endswith("::next")]
+    anys = [(b, t) for b in region for t in [f.term(b)] if t["k"] == "call" and (callee_written(t) or "").endswith("Iterator::any")]
+    res.inst("anchors", next_calls=len(nexts), any_calls=len(anys))
+    if not nexts or not anys:
+        res.viol("anchors", f.loc, "PermissiveHold arm lost its press loop / release search")
+        return res
+    # the loop iterator local: `next(&mut it)`
+    loop_iters = set()
+    for b, t in nexts:
+        a0 = t["args"][0]
+        d = f.single_def(a0["l"]) if is_place(a0) else None
+        if d and d[2] == "assign" and d[3]["k"] == "ref":
+            loop_iters.add(d[3]["p"]["l"])
+    for n, (b, t) in enumerate(anys):
+        # locals on the backward slice of the receiver
+        seen, work = set(), [t["args"][0]]
+        while work:
+            o = work.pop()
+            if not is_place(o) or o["l"] in seen:
+                continue
+            seen.add(o["l"])
+            for (bb, i_, kind, payload) in f.defs().get(o["l"], []):
+                if kind == "assign":
+                    work.extend(rvalue_operands(payload))
+                elif kind == "call":
+                    work.extend(payload["args"])
+        ok = bool(seen & loop_iters)
+        res.inst("release-search#%d" % n, starts_at_loop_position=ok)
+        res.oblige(ok)
+        if not ok:
+            res.viol("release-search#%d" % n, "%s:%s" % (f.file, t.get("ln")),
+                     "the release of the other key is searched in the whole queue instead of after that key's press: a key released "
+                     "before it was (re)pressed triggers the hold action early")
+    return res
